@@ -2049,6 +2049,12 @@ int EGLPNUM_TYPENAME_ILLlib_chgsense (
 		}
 	}
 
+	if (qslp->rA)
+	{															/* the coefficients of the logicals change: the row copy needs to be updated */
+		EGLPNUM_TYPENAME_ILLlp_rows_clear (qslp->rA);
+		ILL_IFFREE(qslp->rA);
+	}
+
 	for (i = 0; i < num; i++)
 	{
 		j = qslp->rowmap[rowlist[i]];
